@@ -17,11 +17,24 @@ from pycaption import CaptionSet, CaptionList, Caption, CaptionNode
 META = ["&", "<", ">", '"', "'", "-->", "--", "->", "-", "&amp;", "&lt;", "&gt;", "&#60;", "&#x3c;", "&nbsp", "&nbsp;",
         "&bogus;", "&amp;lt;", "<br/>", "<br>", "</p>", "<p>", "<i>", "</i>", "</span>", "<span>", "<!--", "-->", "]]>",
         "]]", "<![CDATA[", "<v Bob>", "<00:01.000>", "<c.x>", "{1}{2}", "{", "}", "{y:i}", "\\", "/", ";", "#", "1", "42", "x",
-        "%", "=", "00:00:01,000 --> 00:00:02,000", "NOTE", "STYLE", "WEBVTT", "&&", "<<", ">>", "&;", "&#;", "<>", "</>"]
+        "%", "=", "00:00:01,000 --> 00:00:02,000", "NOTE", "STYLE", "WEBVTT", "&&", "<<", ">>", "&;", "&#;", "<>", "</>",
+        "&#38;", "&eacute;", "&copy", "&#x26;lt;", "REGION", "<sync", "</body>", "\u00a0", "a\u00a0b", "\u200b", "\u200e",
+        "\u200f", "\ufeff", "a\u2028b", "\u2003", "12", "1\u00a0"]
 META_PIPE = ["|", "||", "a|b"]
 WORDS = ["hello", "world", "caption", "text", "The", "quick", "brown", "fox", "it's", "R&D", "a<b", "x>y", "100%",
          "naïve", "¿qué?", "♪", "[music]", "2024", "l’été", "中文", "\U0001F600",
          "é", "Q&A", "<3", "->", "=>", "fin."]
+
+
+def rand_codepoints(rng):
+    """1-4 random printable code points: BMP and astral, any script"""
+    out = []
+    while len(out) < rng.randint(1, 4):
+        c = chr(rng.choice([rng.randint(0x21, 0x7e), rng.randint(0xa1, 0x2fff), rng.randint(0x3000, 0xd7ff),
+                            rng.randint(0xe000, 0xfffd), rng.randint(0x10000, 0x1ffff), rng.randint(0x20000, 0x2fffd)]))
+        if c.isprintable() and not c.isspace():
+            out.append(c)
+    return "".join(out)
 
 
 def rand_line(rng, adversarial=0.5, maxwords=5, pipe=True):
@@ -30,7 +43,9 @@ def rand_line(rng, adversarial=0.5, maxwords=5, pipe=True):
     parts = []
     for _ in range(n):
         r = rng.random()
-        if r < adversarial:
+        if r < 0.08:
+            parts.append(rand_codepoints(rng))
+        elif r < adversarial:
             pool = META + (META_PIPE if pipe and rng.random() < 0.15 else [])
             parts.append(rng.choice(pool))
         else:
@@ -42,6 +57,8 @@ def rand_line(rng, adversarial=0.5, maxwords=5, pipe=True):
         out = " " + out
     if rng.random() < 0.1:
         out = out + " "
+    if not out.strip():
+        return rand_line(rng, adversarial, maxwords, pipe)
     return out
 
 
@@ -67,7 +84,7 @@ def rand_caption_nodes(rng, adversarial=0.5, pipe=True, styles=0.3, max_lines=4,
             if rng.random() < empty_lines:           # an empty line between two text lines
                 for _ in range(rng.randint(1, 2)):
                     if rng.random() < 0.3:
-                        nodes.append(("t", ""))
+                        nodes.append(("t", rng.choice(["", "", " ", "  "])))
                     nodes.append(("b",))
         r = rng.random()
         if open_multi is None and r < styles / 3 and k < len(lines) - 1:
@@ -103,7 +120,35 @@ def rand_caption_nodes(rng, adversarial=0.5, pipe=True, styles=0.3, max_lines=4,
         nodes.append(("b",))
     if rng.random() < intra:
         nodes = split_inside_word(rng, nodes, pool)
+    if rng.random() < intra:
+        nodes = span_inside_word(rng, nodes, pool)
     return nodes
+
+
+def span_inside_word(rng, nodes, pool):
+    """wrap an arbitrary character range of one text node in a span: the span starts and / or ends in the middle of
+    a word (`un<i>believ</i>able`, `a <i>b</i>, c`)"""
+    depth = 0
+    cands = []
+    for k, n in enumerate(nodes):
+        if n[0] == "s":
+            depth += 1 if n[1] else -1
+        elif n[0] == "t" and depth == 0 and len(n[1]) >= 2:
+            cands.append(k)
+    if not cands:
+        return nodes
+    k = rng.choice(cands)
+    txt = nodes[k][1]
+    i = rng.randint(0, len(txt) - 1)
+    j = rng.randint(i + 1, len(txt))
+    st = rng.choice(pool)
+    mid = []
+    if txt[:i]:
+        mid.append(("t", txt[:i]))
+    mid += [("s", True) + st, ("t", txt[i:j]), ("s", False) + st]
+    if txt[j:]:
+        mid.append(("t", txt[j:]))
+    return nodes[:k] + mid + nodes[k + 1:]
 
 
 def split_inside_word(rng, nodes, pool):
@@ -134,25 +179,19 @@ def split_inside_word(rng, nodes, pool):
     return nodes[:k] + mid + nodes[k + 1:]
 
 
-def has_inner_word_boundary(spec):
-    """two text nodes of one line meet without white space on either side (style nodes between them ignored)"""
-    prev = None
-    for n in spec:
-        if n[0] == "b":
-            prev = None
-        elif n[0] == "t":
-            if prev is not None and prev and n[1] and not prev[-1].isspace() and not n[1][0].isspace():
-                return True
-            prev = n[1] if n[1] else prev
-    return False
+FALSE_KEYS = [False]      # toggled by the generators: write absent flags as explicit False values
 
 
 def style_dict(i, b, u, color):
     d = {}
     if i:
         d["italics"] = True
+    elif FALSE_KEYS[0]:
+        d["italics"] = False
     if b:
         d["bold"] = True
+    elif FALSE_KEYS[0]:
+        d["bold"] = False
     if u:
         d["underline"] = True
     if color is not None:
@@ -195,8 +234,20 @@ def py_lines(spec):
     return lines
 
 
-def capset(specs, lang="en-US", t0=1000000, step=2000000, dur=1500000):
-    caps = [Caption(t0 + k * step, t0 + k * step + dur, build_nodes(s)) for k, s in enumerate(specs)]
+def py_lines_sp(spec):
+    """the lines as a writer that appends a blank to every text node spells them (SAMI)"""
+    lines = [""]
+    for n in spec:
+        if n[0] == "t":
+            lines[-1] += n[1] + " "
+        elif n[0] == "b":
+            lines.append("")
+    return lines
+
+
+def capset(specs, lang="en-US", t0=1000000, step=2000000, dur=1500000, spans=None):
+    spans = spans or [times(k, t0, step, dur) for k in range(len(specs))]
+    caps = [Caption(s, e, build_nodes(sp)) for (s, e), sp in zip(spans, specs)]
     return CaptionSet({lang: CaptionList(caps)})
 
 
@@ -224,7 +275,7 @@ def vtt_timing(s, e):
 
 
 def mdvd_prefix(s, e):
-    return "{%d}{%d}" % (s * 25 // 1000000, e * 25 // 1000000)
+    return "{%d}{%d}" % (int(s * 25.0 / (10 ** 6)), int(e * 25.0 / (10 ** 6)))
 
 
 # ---- independent observers named by the properties -------------------------------------------------------
